@@ -15,6 +15,17 @@ use crate::{
     spec::{Config, RawItem},
 };
 
+thread_local! {
+    /// Realized `Failed` events carry a World (C14 "rich" decoration).
+    pub static WITH_WORLD: std::cell::Cell<bool> = const { std::cell::Cell::new(false) };
+}
+
+fn world() -> Option<std::sync::Arc<TW>> {
+    WITH_WORLD.with(std::cell::Cell::get).then(|| {
+        std::sync::Arc::new(TW { id: 7, counter: 3, stamp: Some("stamp \"q\" <m>".into()) })
+    })
+}
+
 /// What the recording writer saw, in order.
 #[derive(Clone, Debug, PartialEq, Eq)]
 pub enum Seen {
@@ -161,7 +172,7 @@ impl Sources {
                 } else {
                     StepError::Panic(std::sync::Arc::new(kind.clone()))
                 };
-                event::Step::Failed(None, None, None, err)
+                event::Step::Failed(None, None, world(), err)
             }
         }
     }
@@ -188,7 +199,7 @@ impl Sources {
                     HookEv::Started => Scenario::hook_started(ty),
                     HookEv::Passed => Scenario::hook_passed(ty),
                     HookEv::Failed(p, _) => {
-                        Scenario::hook_failed(ty, None, std::sync::Arc::new(p.clone()))
+                        Scenario::hook_failed(ty, world(), std::sync::Arc::new(p.clone()))
                     }
                 }
             }
